@@ -398,6 +398,20 @@ func (m *monitor) directed() {
 			return []bbrig.Step{g.DirectedINIT(0, p, "empty", nil)}
 		},
 	})
+	cases = append(cases, dcase{
+		// held while the suffrage is unknown, to be thrown away when it is known:
+		// a bare sign fact with no03's address and another key
+		name: "held-foreign-key-signfact-n4", n: 4, th: 67,
+		build: func(w *bbrig.World, g *bbrig.Gen) []bbrig.Step {
+			return []bbrig.Step{
+				{Op: "hide", Height: 33, Desc: "hide suffrage of height 33"},
+				g.DirectedSignFactBy(w.Imposters[3], p, "A"),
+				g.DirectedSignFactBy(w.Members[0], p, "A"),
+				g.DirectedINIT(1, p, "A", nil),
+				{Op: "reveal", Height: 33, Desc: "reveal suffrage of height 33"},
+			}
+		},
+	})
 	for i, dc := range cases {
 		w := bbrig.NewWorld("c04-directed-"+dc.name, dc.n, dc.th, true, 33)
 		if dc.setup != nil {
